@@ -23,12 +23,13 @@ ap.add_argument('--src', default=None)
 ap.add_argument('--checks', default=None)
 ap.add_argument('--tier', default='quick')
 ap.add_argument('--skip-suite', action='store_true')
+ap.add_argument('--tag', default='', help='prefix of the seed number in the output directory, e.g. r2- for round 2')
 a = ap.parse_args()
 src = a.src or f'/tmp/seed_{a.prop}'
 patch = os.path.join(src, f'patch_{a.k}.diff')
 demo = os.path.join(src, f'demo_{a.k}.py')
 assert os.path.exists(patch) and os.path.exists(demo), (patch, demo)
-wt = f'/tmp/ev_{a.prop}_{a.k}'
+wt = f'/tmp/ev_{a.prop}_{a.tag}{a.k}'
 subprocess.run(['git', '-C', '/repo', 'worktree', 'remove', '--force', wt], capture_output=True)
 subprocess.run(['git', '-C', '/repo', 'worktree', 'add', '--detach', wt, 'HEAD', '-q'], check=True)
 head = subprocess.check_output(['git', '-C', '/repo', 'rev-parse', '--short', 'HEAD'], text=True).strip()
@@ -81,7 +82,7 @@ try:
     valid = rc0 == 0 and rc1 != 0 and meta.get('suite_ok', True)
     meta['valid_seed'] = valid
     meta['caught_by'] = [c for c, v in meta['checks'].items() if v['exit'] == 1]
-    out = f'/verif/seeded/{a.prop}-{a.k}'
+    out = f'/verif/seeded/{a.prop}-{a.tag}{a.k}'
     os.makedirs(out, exist_ok=True)
     shutil.copy(patch, os.path.join(out, 'patch.diff'))
     open(os.path.join(out, 'demo.py'), 'w').write(demo_txt)
